@@ -536,6 +536,41 @@ fn dispatch(name: &str, a: &mut Args) -> String {
 			let (v, fees) = lightning::routing::router::verif_hooks::recompute_fees_probe(&hops, value);
 			format!("{} {}", v, fees.iter().map(|f| f.to_string()).collect::<Vec<_>>().join(" "))
 		},
+		"channel_announcement_sig_probe" => {
+			// <sig1 good> <sig2 good> <sig3 good> <sig4 good>: a channel_announcement whose k-th signature is made by its
+			// own key (1) or by an unrelated key (0), through the public verify_channel_announcement
+			use bitcoin::hashes::{sha256d, Hash};
+			use bitcoin::secp256k1::{Message, PublicKey, Secp256k1, SecretKey};
+			use lightning::ln::msgs::{ChannelAnnouncement, UnsignedChannelAnnouncement};
+			use lightning::routing::gossip::NodeId;
+			use lightning::util::ser::Writeable;
+			let good = [a.bool(), a.bool(), a.bool(), a.bool()];
+			let secp = Secp256k1::new();
+			let sk = |i: u8| SecretKey::from_slice(&[i; 32]).unwrap();
+			let keys = [sk(1), sk(2), sk(3), sk(4)];
+			let pk = |k: &SecretKey| PublicKey::from_secret_key(&secp, k);
+			let contents = UnsignedChannelAnnouncement {
+				features: lightning::types::features::ChannelFeatures::empty(),
+				chain_hash: bitcoin::constants::ChainHash::using_genesis_block(bitcoin::Network::Testnet),
+				short_channel_id: 42,
+				node_id_1: NodeId::from_pubkey(&pk(&keys[0])),
+				node_id_2: NodeId::from_pubkey(&pk(&keys[1])),
+				bitcoin_key_1: NodeId::from_pubkey(&pk(&keys[2])),
+				bitcoin_key_2: NodeId::from_pubkey(&pk(&keys[3])),
+				excess_data: Vec::new(),
+			};
+			let h = Message::from_digest(sha256d::Hash::hash(&contents.encode()[..]).to_byte_array());
+			let foreign = sk(9);
+			let sign = |k: usize| secp.sign_ecdsa(&h, if good[k] { &keys[k] } else { &foreign });
+			let msg = ChannelAnnouncement {
+				node_signature_1: sign(0),
+				node_signature_2: sign(1),
+				bitcoin_signature_1: sign(2),
+				bitcoin_signature_2: sign(3),
+				contents,
+			};
+			format!("{}", lightning::routing::gossip::verify_channel_announcement(&msg, &secp).is_ok() as u8)
+		},
 		"route_overpay_probe" => route_overpay_probe(a),
 		"route_mpp_overpay_probe" => route_mpp_overpay_probe(a),
 		"channel_config_roundtrip" => {
